@@ -3,8 +3,6 @@
 From P2 Require Import Base.Prelude Base.PreludeProofs Sem.Num Sem.Syntax Sem.Ops Sem.Lib Sem.Ref Sem.Gen Sem.Sim Sem.RelProofs Sem.GenProofs Sem.RefMono Sem.Trace.
 Require Import Lia.
 
-Definition tdecided {A} (r : res A) : Prop := match r with OOF | Unsup => False | _ => True end.
-
 (* a decided result is reproduced *)
 Definition dle {A} (r1 r2 : res A) : Prop := tdecided r1 -> r2 = r1.
 
